@@ -12,6 +12,7 @@ Decided at every `yield` of every schedule generator (AFF dataflow facts):
 import ast
 
 from .common import *
+from . import shared
 
 
 def run(chk, ctx):
@@ -20,6 +21,8 @@ def run(chk, ctx):
     chk.describe("C08.R-REV", "Reverse(hi, lo): hi == max_n - r_before and r_after == max_n - lo")
     chk.describe("C08.R-END", "r is reset at EndReverse iff another adjoint calculation is permitted")
     chk.describe("C08.MAXN", "only the constructor, finalize and the generators write _n/_r/_max_n")
+    for cname_ in ctx.model.concrete_classes():
+        shared.rule_observer_attrs(chk, "C08.MAXN", ctx.repo, cname_, ("n", "r", "max_n"))
     for run_ in all_runs(chk, ctx):
         it = run_.interp
         multi = multipass(run_)
